@@ -11,27 +11,46 @@ Ltac unfold_events :=
 
 (* ------------------------------------------------------------ 1. the table *)
 
-Lemma table_repaired c f e : conformsb f e (step c Repaired f e) = true.
+Lemma table_repaired c f e : conformsb c f e (step c Repaired f e) = true.
 Proof.
+  destruct c as [mc mt lc]; destruct lc;
   destruct f as [s i r fl l a o]; destruct e as [| | | | |code id k dlen].
-  1-4: destruct s; reflexivity.
-  - unfold conformsb, classify, step, timeout; cbn. destruct (r >? 0); destruct s; reflexivity.
-  - unfold conformsb, classify; unfold_events; cbn.
+  all: try (destruct s; reflexivity).
+  all: try (unfold conformsb, classify, step, timeout; cbn; destruct (r >? 0); destruct s; reflexivity).
+  all: unfold conformsb, classify; unfold_events; cbn;
     destruct (code_of code); destruct s; try destruct k; cbn; brk; cbn in *; try discriminate; try reflexivity.
 Qed.
 
-(* today's code agrees with the table in every cell that is not listed in bad_cells *)
+(* today's code agrees with the table in every cell that is not listed in bad_cells, except that
+   it does not treat the LCP-only codes 8-11 as unknown codes when it runs an NCP *)
+Definition ncp_lcp_code (c : cfg) (e : Ev) : bool :=
+  match e with EInput code _ _ _ => negb (lcp c) && lcp_only (code_of code) | _ => false end.
+
 Lemma table_defective_off_bad c f e :
-  conformsb f e (step c Defective f e) = true \/
-  exists re, classify f e = Some re /\ is_bad_cell (st f) re = true.
+  conformsb c f e (step c Defective f e) = true \/
+  (exists re, classify c f e = Some re /\ is_bad_cell (st f) re = true) \/
+  ncp_lcp_code c e = true.
 Proof.
+  destruct c as [mc mt lc]; destruct lc;
   destruct f as [s i r fl l a o]; destruct e as [| | | | |code id k dlen].
-  1,2,4: left; destruct s; reflexivity.
-  - destruct s; try (left; reflexivity). right; exists ROpen; split; reflexivity.
-  - left. unfold conformsb, classify, step, timeout; cbn. destruct (r >? 0); destruct s; reflexivity.
-  - unfold conformsb, classify; unfold_events; cbn.
+  all: try (left; destruct s; reflexivity).
+  all: try (destruct s; try (left; reflexivity); right; left; exists ROpen; split; reflexivity).
+  all: try (left; unfold conformsb, classify, step, timeout; cbn; destruct (r >? 0); destruct s; reflexivity).
+  all: unfold conformsb, classify, ncp_lcp_code; unfold_events; cbn;
     destruct (code_of code); destruct s; try destruct k; cbn; brk; cbn in *; try discriminate;
-      try (left; reflexivity); right; eexists; split; reflexivity.
+      try (left; reflexivity); try (right; right; reflexivity); right; left; eexists; split; reflexivity.
+Qed.
+
+(* with only the NCP patch missing, the table holds for LCP instances *)
+Lemma table_lcp_cells_fixed c v f e :
+  fix_cells v = true -> lcp c = true -> conformsb c f e (step c v f e) = true.
+Proof.
+  destruct c as [mc mt lc]; cbn; intros FC ->; destruct v as [fc fn]; cbn in FC; subst fc; destruct fn;
+  destruct f as [s i r fl l a o]; destruct e as [| | | | |code id k dlen].
+  all: try (destruct s; reflexivity).
+  all: try (unfold conformsb, classify, step, timeout; cbn; destruct (r >? 0); destruct s; reflexivity).
+  all: unfold conformsb, classify; unfold_events; cbn;
+    destruct (code_of code); destruct s; try destruct k; cbn; brk; cbn in *; try discriminate; try reflexivity.
 Qed.
 
 (* ------------------------------------------------------------ 2. counter and identifiers *)
@@ -40,20 +59,20 @@ Lemma counter_ok c v f e :
   restart (step c v f e) = counter_after c f e (outs (step c v f e)).
 Proof.
   destruct f as [s i r fl l a o]; destruct e as [| | | | |code id k dlen].
-  1-4: destruct s, v; reflexivity.
+  1-4: destruct s; destruct v as [[|] [|]]; reflexivity.
   - unfold counter_after, step, timeout; cbn. destruct (r >? 0); destruct s; reflexivity.
   - unfold counter_after; unfold_events; cbn.
-    destruct (code_of code); destruct s; try destruct k; try destruct v; cbn; brk; cbn in *;
+    destruct (code_of code); destruct s; try destruct k; try (destruct v as [[|] [|]]); cbn; brk; cbn in *;
       try discriminate; try reflexivity.
 Qed.
 
 Lemma ids_ok c v f e : ids_okb f e (outs (step c v f e)) = true.
 Proof.
   destruct f as [s i r fl l a o]; destruct e as [| | | | |code id k dlen].
-  1-4: destruct s, v; cbn; rewrite ?Z.eqb_refl; reflexivity.
+  1-4: destruct s; destruct v as [[|] [|]]; cbn; rewrite ?Z.eqb_refl; reflexivity.
   - unfold ids_okb, step, timeout; cbn. destruct (r >? 0); destruct s; cbn; rewrite ?Z.eqb_refl; reflexivity.
   - unfold ids_okb; unfold_events; cbn.
-    destruct (code_of code); destruct s; try destruct k; try destruct v; cbn; brk; cbn in *;
+    destruct (code_of code); destruct s; try destruct k; try (destruct v as [[|] [|]]); cbn; brk; cbn in *;
       rewrite ?Z.eqb_refl; try discriminate; try reflexivity.
 Qed.
 
@@ -68,7 +87,7 @@ Lemma stale_ignored c v f code id k dlen :
 Proof.
   intros H N. apply Z.eqb_neq in N. unfold is_ack_code in H.
   unfold step, input, rcaEvent, rcnEvent.
-  destruct (code_of code); try discriminate; cbn; rewrite N; reflexivity.
+  destruct (code_of code); try discriminate; cbn; rewrite ?andb_false_r, N; reflexivity.
 Qed.
 
 Lemma current_ack_not_ignored_nonvac :
@@ -96,10 +115,10 @@ Lemma step_last_scr c v f e acc :
 Proof.
   intros H; destruct f as [s i r fl l a o]; cbn in H.
   destruct e as [| | | | |code id k dlen].
-  1-4: destruct s, v; cbn; destruct H as [->| ->]; auto.
+  1-4: destruct s; destruct v as [[|] [|]]; cbn; destruct H as [->| ->]; auto.
   - unfold step, timeout; cbn. destruct (r >? 0); destruct s; cbn; destruct H as [->| ->]; auto.
   - unfold_events; cbn.
-    destruct (code_of code); destruct s; try destruct k; try destruct v; cbn; brk; cbn in *;
+    destruct (code_of code); destruct s; try destruct k; try (destruct v as [[|] [|]]); cbn; brk; cbn in *;
       try discriminate; destruct H as [->| ->]; auto.
 Qed.
 
@@ -160,10 +179,10 @@ Lemma step_alt c v f e :
   alt_acts (is_opened (st f)) (outs (step c v f e)) = Some (is_opened (st (step c v f e))).
 Proof.
   destruct f as [s i r fl l a o]; destruct e as [| | | | |code id k dlen].
-  1-4: destruct s, v; reflexivity.
+  1-4: destruct s; destruct v as [[|] [|]]; reflexivity.
   - unfold step, timeout; cbn. destruct (r >? 0); destruct s; reflexivity.
   - unfold_events; cbn.
-    destruct (code_of code); destruct s; try destruct k; try destruct v; cbn; brk; cbn in *;
+    destruct (code_of code); destruct s; try destruct k; try (destruct v as [[|] [|]]); cbn; brk; cbn in *;
       try discriminate; try reflexivity.
 Qed.
 
@@ -199,6 +218,10 @@ Proof.
   cbn [trace run]. change (up_after (is_opened (st f)) (IEv e :: ?t)) with (up_after (is_opened (st f)) t).
   rewrite (up_after_acts _ _ _ _ (step_alt c v f e)). apply IH.
 Qed.
+
+Lemma up_iff_opened_init c v es :
+  up_after false (trace c v init es) = is_opened (st (run c v init es)).
+Proof. exact (up_iff_opened_from c v es init). Qed.
 
 (* ------------------------------------------------------------ 5. tlu needs both acknowledgements *)
 
@@ -236,10 +259,16 @@ Proof.
   intros SV (H1 & H2 & H3).
   destruct m as [ls ou lr th]; destruct f as [s i r fl l a o]; cbn in H1, H2, H3.
   destruct e as [| | | | |code id k dlen].
-  1-4: destruct s, v; cbn; eexists; (split; [reflexivity|]); minv_solve.
+  1-4: destruct s; destruct v as [[|] [|]]; cbn; eexists; (split; [reflexivity|]); minv_solve.
   - unfold step, timeout; cbn. destruct (r >? 0); destruct s; cbn; eexists; (split; [reflexivity|]); minv_solve.
   - assert (SV' : strict = false \/ v = Repaired) by (destruct strict; auto).
-    unfold_events; cbn.
+    unfold step, input.
+    destruct (fix_ncp v && negb (lcp c) && lcp_only (code_of code)) eqn:NCP.
+    { apply andb_true_iff in NCP; destruct NCP as (_ & LO).
+      unfold rucEvent; cbn.
+      destruct (code_of code) eqn:EC; try discriminate LO; cbn; rewrite ?EC; cbn;
+        eexists; (split; [reflexivity|]); minv_solve. }
+    clear NCP. unfold_events; cbn.
     destruct (code_of code) eqn:EC; cbn; rewrite ?EC; cbn.
     + (* ConfReq *)
       destruct s; destruct k; cbn; rewrite ?Z.eqb_refl; cbn;
@@ -248,7 +277,7 @@ Proof.
     + (* ConfAck *)
       destruct (id =? l) eqn:E; cbn.
       * apply Z.eqb_eq in E; subst id.
-        destruct s; try destruct v; cbn; try (rewrite H1 by reflexivity); cbn; rewrite ?Z.eqb_refl; cbn;
+        destruct s; try (destruct v as [[|] [|]]); cbn; try (rewrite H1 by reflexivity); cbn; rewrite ?Z.eqb_refl; cbn;
           try (rewrite H3 by auto); cbn;
           try (destruct (oz_eqb ls l)); cbn;
           try (eexists; (split; [reflexivity|]); minv_solve; fail).
@@ -257,16 +286,16 @@ Proof.
              (rewrite H1 in F by reflexivity; cbn in F; rewrite Z.eqb_sym in F; congruence).
         -- eexists; (split; [reflexivity|]); minv_solve.
     + destruct (id =? l) eqn:E; cbn;
-        destruct s; try destruct v; cbn; eexists; (split; [reflexivity|]); minv_solve.
+        destruct s; try (destruct v as [[|] [|]]); cbn; eexists; (split; [reflexivity|]); minv_solve.
     + destruct (id =? l) eqn:E; cbn;
-        destruct s; try destruct v; cbn; eexists; (split; [reflexivity|]); minv_solve.
+        destruct s; try (destruct v as [[|] [|]]); cbn; eexists; (split; [reflexivity|]); minv_solve.
     + (* TermReq *)
-      destruct SV' as [-> | ->]; destruct s; try destruct v; try destruct strict; cbn;
+      destruct SV' as [-> | ->]; destruct s; try (destruct v as [[|] [|]]); try destruct strict; cbn;
         eexists; (split; [reflexivity|]); minv_solve.
     + (* TermAck *)
-      destruct SV' as [-> | ->]; destruct s; try destruct v; try destruct strict; cbn;
+      destruct SV' as [-> | ->]; destruct s; try (destruct v as [[|] [|]]); try destruct strict; cbn;
         eexists; (split; [reflexivity|]); minv_solve.
-    + destruct s; try destruct v; cbn; eexists; (split; [reflexivity|]); minv_solve.
+    + destruct s; try (destruct v as [[|] [|]]); cbn; eexists; (split; [reflexivity|]); minv_solve.
     + eexists; (split; [reflexivity|]); minv_solve.
     + unfold st_eqb; destruct s; cbn; destruct (dlen >=? 4); cbn; eexists; (split; [reflexivity|]); minv_solve.
     + eexists; (split; [reflexivity|]); minv_solve.
@@ -369,11 +398,11 @@ Proof.
   intros HC HT (H1 & H2 & H3).
   destruct f as [s i r fl l a o]; cbn in H1, H2, H3.
   destruct e as [| | | | |code id k dlen].
-  1-4: destruct s, v; rinv_solve.
+  1-4: destruct s; destruct v as [[|] [|]]; rinv_solve.
   - unfold step, timeout; cbn. destruct (r >? 0) eqn:E; [apply Z.gtb_lt in E|];
       destruct s; rinv_solve.
   - unfold_events; cbn.
-    destruct (code_of code); destruct s; try destruct k; try destruct v; cbn; brk; cbn in *;
+    destruct (code_of code); destruct s; try destruct k; try (destruct v as [[|] [|]]); cbn; brk; cbn in *;
       try discriminate; rinv_solve.
 Qed.
 
@@ -519,9 +548,9 @@ Definition dwit : list (list Ev * Ev) :=
 
 Definition refutes (w : list Ev * Ev) : bool :=
   let f := run default_cfg Defective init (fst w) in
-  negb (conformsb f (snd w) (step default_cfg Defective f (snd w))).
+  negb (conformsb default_cfg f (snd w) (step default_cfg Defective f (snd w))).
 Definition wit_cell (w : list Ev * Ev) : St * option REv :=
-  let f := run default_cfg Defective init (fst w) in (st f, classify f (snd w)).
+  let f := run default_cfg Defective init (fst w) in (st f, classify default_cfg f (snd w)).
 
 Lemma dwit_refute :
   forallb refutes dwit = true /\
@@ -531,8 +560,8 @@ Proof. split; vm_compute; reflexivity. Qed.
 Lemma table_defective_refuted :
   forall cell, In cell bad_cells ->
   exists es e, let f := run default_cfg Defective init es in
-    st f = fst cell /\ classify f e = Some (snd cell) /\
-    conformsb f e (step default_cfg Defective f e) = false.
+    st f = fst cell /\ classify default_cfg f e = Some (snd cell) /\
+    conformsb default_cfg f e (step default_cfg Defective f e) = false.
 Proof.
   intros cell H. cbn in H.
   repeat (destruct H as [<-|H];
@@ -550,6 +579,16 @@ Proof.
       | exists [EOpen; EUp; RCRp; RCA1; RXJ], RXJ; vm_compute; repeat split; reflexivity ] | ]).
   contradiction.
 Qed.
+
+(* an NCP answers an Echo-Request with an Echo-Reply instead of a Code-Reject *)
+Definition ncp_cfg : cfg := mkCfg 10 2 false.
+Lemma ncp_codes_refuted :
+  exists es e, let f := run ncp_cfg Defective init es in
+    classify ncp_cfg f e = Some RUC /\
+    outs (step ncp_cfg Defective f e) = [Ser 9] /\
+    outs (step ncp_cfg Repaired f e) = [Scj 2 9 9] /\
+    conformsb ncp_cfg f e (step ncp_cfg Defective f e) = false.
+Proof. exists [EOpen; EUp; RCRp; RCA1], (EInput 9 9 CGood 4). vm_compute. repeat split; reflexivity. Qed.
 
 (* Terminate-Request in Opened: Stopping without a running timer *)
 Lemma timer_armed_refuted :
@@ -571,7 +610,7 @@ Lemma fresh_negotiation_refuted :
     st (run c Defective f [e; ETimeout]) = Stopped /\
     count_acts is_retrans (trace c Defective (step c Defective f e) [ETimeout]) = 0%nat.
 Proof.
-  exists (mkCfg 2 1), [EOpen; EUp; RCRp; ETimeout; ETimeout; EInput 2 3 CGood 0], RCRp.
+  exists (mkCfg 2 1 true), [EOpen; EUp; RCRp; ETimeout; ETimeout; EInput 2 3 CGood 0], RCRp.
   vm_compute. repeat split; reflexivity.
 Qed.
 
@@ -594,10 +633,10 @@ Lemma bounded_nonvac :
 Proof. vm_compute. repeat split; reflexivity. Qed.
 
 Lemma fresh_nonvac :
-  let f := run (mkCfg 2 1) Repaired init [EOpen; EUp; RCRp; ETimeout; ETimeout; EInput 2 3 CGood 0] in
-  timer_ok (mkCfg 2 1) Repaired init [EOpen; EUp; RCRp; ETimeout; ETimeout; EInput 2 3 CGood 0] = true /\
-  st f = Opened /\ existsb is_scr (outs (step (mkCfg 2 1) Repaired f RCRp)) = true /\
-  restart (step (mkCfg 2 1) Repaired f RCRp) = 2.
+  let f := run (mkCfg 2 1 true) Repaired init [EOpen; EUp; RCRp; ETimeout; ETimeout; EInput 2 3 CGood 0] in
+  timer_ok (mkCfg 2 1 true) Repaired init [EOpen; EUp; RCRp; ETimeout; ETimeout; EInput 2 3 CGood 0] = true /\
+  st f = Opened /\ existsb is_scr (outs (step (mkCfg 2 1 true) Repaired f RCRp)) = true /\
+  restart (step (mkCfg 2 1 true) Repaired f RCRp) = 2.
 Proof. vm_compute. repeat split; reflexivity. Qed.
 
 Lemma timer_nonvac :
